@@ -273,8 +273,29 @@ func runC13Pop(tb report.TB, rep *report.Reporter, c c13Pop) {
 			}
 		}
 	}
-	// identities resolve by prefix too
-	for n := 0; n <= 64; n += 7 {
+	// identities resolve by prefix too. Creations that are refused (an avatar that is not a URL, a name of control
+	// characters) leave nothing behind that could take part in the resolution
+	idsBefore := len(rc.Identities().AllIds())
+	for k, bad := range [][2]string{{"ghost", "not a url"}, {"ghost two", "http://x/\ny"}, {"ctrl\x07name", ""}, {"", ""}} {
+		if _, err := rc.Identities().NewFull(bad[0], "ghost@example.org", "", bad[1], nil); err == nil {
+			idsBefore++ // accepted after all: then it is a real identity
+			_ = k
+		}
+	}
+	if n := len(rc.Identities().AllIds()); n != idsBefore {
+		if fail("refused-identity-creation-left-an-identity", fmt.Sprintf("%d identities are listed, %d exist", n, idsBefore)) {
+			return
+		}
+	}
+	for n := 0; n <= 64; n++ {
+		if idsBefore > 1 && n < 8 {
+			continue // several real identities: short prefixes may be ambiguous, which is not the subject here
+		}
+		if ex, err := rc.Identities().ResolveExcerptPrefix(aid[:n]); err != nil || string(ex.Id()) != aid {
+			if fail("identity-excerpt-prefix-not-resolved", fmt.Sprintf("prefix %q: %v", aid[:n], err)) {
+				return
+			}
+		}
 		i, err := rc.Identities().ResolvePrefix(aid[:n])
 		if err != nil || string(i.Id()) != aid {
 			if fail("identity-prefix-not-resolved", fmt.Sprintf("prefix %q: %v", aid[:n], err)) {
